@@ -803,9 +803,96 @@ func c21Depth(parents []int, b int) int {
 	return d
 }
 
+// c21GenDense concentrates on the tallies: every authority prevotes and most precommit, the votes cluster in
+// the subtree of a focus block (so that common ancestors with a supermajority appear), some voters vote for
+// ancestors of the focus (a directly voted block below the GHOST), some equivocate; no malformed messages.
+func c21GenDense(r *vhRng) string {
+	n := r.Pick(3, 4, 4, 5, 6, 7, 7)
+	size := 2 + r.Intn(7)
+	parents := make([]int, 0, size)
+	strs := make([]string, 0, size)
+	for i := 1; i < size; i++ {
+		p := i - 1
+		if r.Chance(1, 2) {
+			p = r.Intn(i)
+		}
+		parents = append(parents, p)
+		strs = append(strs, strconv.Itoa(p))
+	}
+	base := r.Pick(0, 0, 1)
+	me := fmt.Sprintf("v%d", n+1)
+	if r.Chance(1, 4) {
+		me = fmt.Sprintf("v%d", r.Intn(n))
+	}
+	meIdx, _ := c21ParseKey(me)
+	chg := "-"
+	if r.Chance(1, 3) {
+		chg = strconv.Itoa(base + r.Intn(4))
+	}
+	round := r.Pick(1, 1, 2, 5)
+	vote := func(b int) string { return fmt.Sprintf("b%d:%d", b, base+c21Depth(parents, b)) }
+	var ops []string
+	for _, st := range []string{"pv", "pc"} {
+		focus := r.Intn(size)
+		var under, above []int
+		for b := 0; b < size; b++ {
+			if c21IsAnc(parents, focus, b) {
+				under = append(under, b)
+			} else if c21IsAnc(parents, b, focus) {
+				above = append(above, b)
+			}
+		}
+		pick := func() int {
+			switch x := r.Intn(20); {
+			case x < 13:
+				return under[r.Intn(len(under))]
+			case x < 17 && len(above) > 0:
+				return above[r.Intn(len(above))]
+			default:
+				return r.Intn(size)
+			}
+		}
+		voters := n
+		if st == "pc" {
+			voters = r.Pick(0, n/2, 2*n/3, 2*n/3+1, n, n)
+		}
+		perm := make([]int, n)
+		for i := range perm {
+			perm[i] = i
+		}
+		for i := n - 1; i > 0; i-- {
+			j := r.Intn(i + 1)
+			perm[i], perm[j] = perm[j], perm[i]
+		}
+		for _, a := range perm[:voters] {
+			if a == meIdx {
+				ops = append(ops, fmt.Sprintf("own %s b%d", st, pick()))
+				continue
+			}
+			ops = append(ops, fmt.Sprintf("m %s v%d %s ok = =", st, a, vote(pick())))
+		}
+		eq := r.Pick(0, 0, 0, 1, 1, 2, n/3, n/3+1)
+		for k := 0; k < eq; k++ {
+			a := r.Intn(n)
+			ops = append(ops, fmt.Sprintf("m %s v%d %s ok = =", st, a, vote(r.Intn(size))))
+		}
+	}
+	if r.Chance(1, 3) {
+		for i := len(ops) - 1; i > 0; i-- {
+			j := r.Intn(i + 1)
+			ops[i], ops[j] = ops[j], ops[i]
+		}
+	}
+	return fmt.Sprintf("n=%d me=%s base=%d tree=%s fin=0 chg=%s R=%d S=0|%s",
+		n, me, base, strings.Join(strs, ","), chg, round, strings.Join(ops, ";"))
+}
+
 func c21Gen(r *vhRng) string {
 	if r.Chance(1, 200) {
 		return fmt.Sprintf("thr %d", r.Intn(200))
+	}
+	if r.Chance(1, 2) {
+		return c21GenDense(r)
 	}
 	n := r.Pick(1, 2, 3, 3, 4, 4, 4, 5, 6, 7, 7)
 	treeStr, parents := c21GenTree(r)
@@ -967,7 +1054,11 @@ func c21Gen(r *vhRng) string {
 			msg(stageOf(), nid, vote(pickVote()), "ok", "=", "=")
 		case 5: // unknown block
 			msg(stageOf(), id, vote(size+r.Intn(2)), "ok", "=", "=")
-		case 6: // wrong number
+		case 6: // wrong number (rarely: a stored wrong number voids the comparison of the order-dependent queries)
+			if r.Chance(2, 3) {
+				msg(stageOf(), id, vote(pickVote()), badSig(a), "=", "=")
+				break
+			}
 			b := pickVote()
 			d := base + c21Depth(parents, b)
 			num := d + 1 + r.Intn(2)
